@@ -25,6 +25,13 @@ pub struct PtCase {
     /// consists only (C08): default hybrid locomotives appended to the generated units
     #[serde(default)]
     pub hybrids: usize,
+    /// consists only (C10): `set_assert_limits(false)` before the first step
+    #[serde(default)]
+    pub limits_off: bool,
+    /// consists of >= 2 units only: before this step the last unit is taken out of the live
+    /// consist (0 `drain_loco_vec`, 1 `set_loco_vec`, 2 the public field)
+    #[serde(default)]
+    pub drop_unit_before: Option<(usize, u8)>,
 }
 
 pub fn gen_pt_case(g: &mut Gen, tier: Tier, force_consist: Option<bool>) -> PtCase {
@@ -41,7 +48,7 @@ pub fn gen_pt_case_dt(g: &mut Gen, tier: Tier, force_consist: Option<bool>, coar
     let max_steps = if tier == Tier::Thorough { 80 } else { 40 };
     let dtm = if coarse_dt_p > 0.0 && g.bool(coarse_dt_p) { 10.0 } else { dt_max(&units) };
     let steps = gen_steps(g, max_steps, dtm, !consist);
-    PtCase { units, consist, pdct, steps, retry_on_same_object: false, hybrids: 0 }
+    PtCase { units, consist, pdct, steps, retry_on_same_object: false, hybrids: 0, limits_off: false, drop_unit_before: None }
 }
 
 pub type Vals = BTreeMap<String, f64>;
@@ -150,7 +157,28 @@ pub fn drive(case: &PtCase) -> PtTrace {
             }
             con = Consist::new(v, None, con.pdct.clone());
         }
-        for s in &case.steps {
+        if case.limits_off {
+            con.set_assert_limits(false);
+        }
+        for (k, s) in case.steps.iter().enumerate() {
+            if let Some((at, via)) = case.drop_unit_before {
+                if at == k && con.loco_vec.len() >= 2 {
+                    let n = con.loco_vec.len();
+                    match via {
+                        0 => {
+                            con.drain_loco_vec(n - 1, n);
+                        }
+                        1 => {
+                            let mut v = con.loco_vec.clone();
+                            v.pop();
+                            con.set_loco_vec(v);
+                        }
+                        _ => {
+                            con.loco_vec.pop();
+                        }
+                    }
+                }
+            }
             let t_new = t_prev + s.dt;
             let dt_used = t_new - t_prev;
             let dt = uc::S * dt_used;
@@ -168,7 +196,7 @@ pub fn drive(case: &PtCase) -> PtTrace {
                 con_post: Vals::new(),
             };
             let snapshot = con.clone();
-            let r = (|| -> anyhow::Result<()> {
+            let mut attempt = || -> anyhow::Result<()> {
                 con.set_pwr_aux(Some(true))?;
                 con.set_cur_pwr_max_out(None, dt)?;
                 rec.pre = con.loco_vec.iter().map(unit_vals).collect();
@@ -181,7 +209,18 @@ pub fn drive(case: &PtCase) -> PtTrace {
                 );
                 con.solve_energy_consumption(uc::W * rec.request, dt, Some(true))?;
                 Ok(())
-            })();
+            };
+            // with limit checking off a demand no split can meet (e.g. above the capability of
+            // a battery-only consist) trips the split's own `assert_almost_eq_uom`: not an
+            // accepted step, so not something the statement speaks about — taken as a rejection
+            let r = if case.limits_off {
+                match crate::engine::catch(&mut attempt) {
+                    Ok(r) => r,
+                    Err(p) => Err(anyhow::anyhow!("unwound with limit checking off: {}", p.msg.lines().map(|l| l.trim()).collect::<Vec<_>>().join(" "))),
+                }
+            } else {
+                attempt()
+            };
             match r {
                 Ok(()) => {
                     rec.accepted = true;
@@ -782,7 +821,8 @@ pub fn check_c10(case: &PtCase, cx: &mut Ctx) {
             let pom = g(pre, "loco.pwr_out_max");
             let rating = case.units[u].edrv().pwr_max;
             let bel = case.units[u].is_bel();
-            if po > 0.0 && !tight(po, pom) {
+            // (with limit checking off a demand above the published limits is accepted by design)
+            if po > 0.0 && !tight(po, pom) && !case.limits_off {
                 cx.fail("C10|bound|unit.traction>published-limit", format!("step {k} unit {u}: {po:e} > {pom:e}"));
             }
             if po < 0.0 && !tight(-po, rating) {
@@ -828,6 +868,8 @@ pub fn check_c10(case: &PtCase, cx: &mut Ctx) {
     cx.label_if(deficit_seen, "deficit_regime");
     cx.label_if(brake_beyond_regen, "braking_beyond_regen");
     cx.label_if(mixed, "mixed_consist");
+    cx.label_if(case.limits_off, "limit_checking_off");
+    cx.label_if(case.drop_unit_before.is_some(), "last_unit_taken_out_of_the_live_consist");
     if mixed && (deficit_seen || brake_beyond_regen) {
         cx.nontrivial();
     }
@@ -862,6 +904,22 @@ macro_rules! pt_prop {
                 // battery-electric units only)
                 if $id == "C08" && c.consist && g.bool(0.2) {
                     c.hybrids = g.usize(1, 2);
+                }
+                // a live consist that loses its last unit between two steps (C09, C10), and
+                // consists with limit checking off (C10: the split's own guards must still
+                // keep every unit's braking within its drivetrain rating)
+                if ($id == "C10" || $id == "C09") && c.consist && c.units.len() >= 2 && g.bool(0.12) {
+                    let at = g.usize(0, c.steps.len().saturating_sub(1));
+                    c.drop_unit_before = Some((at, g.int(0, 2) as u8));
+                    // the step after the change brakes against the capability published before it
+                    if g.bool(0.7) {
+                        c.steps[at].kind = 3;
+                        c.steps[at].frac = [0.75, 0.9, 0.999, 1.0][g.idx(4)];
+                        c.steps[at].engine_on = true;
+                    }
+                }
+                if $id == "C10" && c.consist && g.bool(0.12) {
+                    c.limits_off = true;
                 }
                 c
             }
